@@ -132,4 +132,172 @@ theorem range'_heights_ascending (hs : List Hdr) (start : Nat)
   rw [List.pairwise_map] at this
   exact this.imp (fun hab => Nat.le_of_lt hab)
 
+/-! ### response-level lemmas (strict reading of C28) -/
+
+/-- entry is OK and its body validated -/
+def goodB (r : Resp) : Bool := decide (r.status = 1) && r.decoded.isSome
+
+theorem toValidated_of_good (r : Resp) (h : goodB r = true) : ∃ x, toValidated r = .ok x := by
+  simp only [goodB, Bool.and_eq_true, decide_eq_true_eq] at h
+  obtain ⟨x, hx⟩ := Option.isSome_iff_exists.mp h.2
+  exact ⟨x, (toValidated_ok r x).mpr ⟨h.1, hx⟩⟩
+
+theorem toValidated_of_bad (r : Resp) (h : goodB r = false) : ∃ e, toValidated r = .error e := by
+  cases hv : toValidated r with
+  | error e => exact ⟨e, rfl⟩
+  | ok x =>
+    obtain ⟨h1, h2⟩ := (toValidated_ok r x).mp hv
+    simp [goodB, h1, h2] at h
+
+/-- with something already decoded the loop returns the maximal good prefix -/
+theorem decodeLoop_prefix (resps : List Resp) :
+    ∀ acc, acc ≠ [] → decodeLoop resps acc = .ok (acc ++ validated (resps.takeWhile goodB)) := by
+  induction resps with
+  | nil => intro acc _; simp [decodeLoop, validated]
+  | cons r rs ih =>
+    intro acc hacc
+    by_cases hg : goodB r = true
+    · obtain ⟨x, hx⟩ := toValidated_of_good r hg
+      simp only [decodeLoop, hx, List.takeWhile_cons, hg, ↓reduceIte]
+      rw [ih (acc ++ [x]) (by simp), validated_cons_ok r _ x hx]
+      simp
+    · have hg' : goodB r = false := by simpa using hg
+      obtain ⟨e, he⟩ := toValidated_of_bad r hg'
+      have : acc.isEmpty = false := by
+        cases acc with
+        | nil => exact absurd rfl hacc
+        | cons _ _ => rfl
+      simp [decodeLoop, he, this, List.takeWhile_cons, hg', validated]
+
+/-- from scratch: the maximal good prefix if the first entry is good, the first entry's error
+    otherwise -/
+theorem decodeLoop_first_good (r : Resp) (rs : List Resp) (hg : goodB r = true) :
+    decodeLoop (r :: rs) [] = .ok (validated ((r :: rs).takeWhile goodB)) := by
+  obtain ⟨x, hx⟩ := toValidated_of_good r hg
+  simp only [decodeLoop, hx, List.nil_append, List.takeWhile_cons, hg, ↓reduceIte]
+  rw [decodeLoop_prefix rs [x] (by simp), validated_cons_ok r _ x hx]
+  simp
+
+theorem decodeLoop_first_bad (r : Resp) (rs : List Resp) (hg : goodB r = false) :
+    ∃ e, decodeLoop (r :: rs) [] = .error e := by
+  obtain ⟨e, he⟩ := toValidated_of_bad r hg
+  exact ⟨e, by simp [decodeLoop, he]⟩
+
+theorem takeWhile_all_good (resps : List Resp) : ∀ r ∈ resps.takeWhile goodB, goodB r = true := by
+  induction resps with
+  | nil => intro r hr; simp at hr
+  | cons x xs ih =>
+    intro r hr
+    by_cases hx : goodB x = true
+    · simp only [List.takeWhile_cons, hx, ↓reduceIte, List.mem_cons] at hr
+      rcases hr with rfl | hr
+      · exact hx
+      · exact ih r hr
+    · simp [List.takeWhile_cons, hx] at hr
+
+theorem mem_of_mem_takeWhile (resps : List Resp) : ∀ r ∈ resps.takeWhile goodB, r ∈ resps := by
+  induction resps with
+  | nil => intro r hr; simp at hr
+  | cons x xs ih =>
+    intro r hr
+    by_cases hx : goodB x = true
+    · simp only [List.takeWhile_cons, hx, ↓reduceIte, List.mem_cons] at hr ⊢
+      rcases hr with rfl | hr
+      · exact Or.inl rfl
+      · exact Or.inr (ih r hr)
+    · simp [List.takeWhile_cons, hx] at hr
+
+theorem takeWhile_eq_self_of_all (resps : List Resp) (h : ∀ r ∈ resps, goodB r = true) :
+    resps.takeWhile goodB = resps := by
+  induction resps with
+  | nil => rfl
+  | cons x xs ih =>
+    have hx := h x (by simp)
+    simp only [List.takeWhile_cons, hx, ↓reduceIte]
+    rw [ih (fun r hr => h r (List.mem_cons_of_mem _ hr))]
+
+theorem takeWhile_length_le (resps : List Resp) : (resps.takeWhile goodB).length ≤ resps.length := by
+  induction resps with
+  | nil => simp
+  | cons x xs ih =>
+    by_cases hx : goodB x = true
+    · simp only [List.takeWhile_cons, hx, ↓reduceIte, List.length_cons]; omega
+    · simp [List.takeWhile_cons, hx]
+
+/-- a response whose good prefix is non-empty and that is not oversized is treated exactly like
+    its good prefix -/
+theorem decode_prefix (fixed : Bool) (req : Request) (resps : List Resp)
+    (hp : resps.takeWhile goodB ≠ []) (hlen : resps.length ≤ req.amount) :
+    decodeAndVerifyG fixed req resps = decodeAndVerifyG fixed req (resps.takeWhile goodB) := by
+  cases resps with
+  | nil => simp at hp
+  | cons r rs =>
+    have hg : goodB r = true := by
+      by_cases h : goodB r = true
+      · exact h
+      · simp [List.takeWhile_cons, h] at hp
+    have h1 := decodeLoop_first_good r rs hg
+    -- the prefix, decoded on its own
+    have hpl : ((r :: rs).takeWhile goodB).length ≤ (r :: rs).length := takeWhile_length_le _
+    have h2 : decodeLoop ((r :: rs).takeWhile goodB) [] = .ok (validated ((r :: rs).takeWhile goodB)) := by
+      have := decodeLoop_all ((r :: rs).takeWhile goodB)
+        (by
+          intro x hx
+          have := takeWhile_all_good (r :: rs) x hx
+          simpa [goodB] using this) []
+      simpa using this
+    have e1 : (r :: rs).isEmpty = false := rfl
+    have e2 : ((r :: rs).takeWhile goodB).isEmpty = false := by
+      cases h : (r :: rs).takeWhile goodB with
+      | nil => exact absurd h hp
+      | cons _ _ => rfl
+    have l1 : ¬ (r :: rs).length > req.amount := by omega
+    have l2 : ¬ ((r :: rs).takeWhile goodB).length > req.amount := by omega
+    simp only [decodeAndVerifyG, e1, e2, Bool.false_eq_true, ↓reduceIte, l1, l2, h1, h2]
+
+theorem sortH_eq (l : List Hdr) : Lumina.Spec.C28.sortH (·.height) l = sortByHeight l := by
+  have hi : ∀ (h : Hdr) (l : List Hdr), Lumina.Spec.C28.insertH (·.height) h l = insertByHeight h l := by
+    intro h l
+    induction l with
+    | nil => rfl
+    | cons x xs ih => simp only [Lumina.Spec.C28.insertH, insertByHeight, ih]
+  induction l with
+  | nil => rfl
+  | cons x xs ih => simp only [Lumina.Spec.C28.sortH, sortByHeight, ih, hi]
+
+/-- what an `Ok` of the acceptance function is made of -/
+theorem ok_sorted (req : Request) (resps : List Resp) (hs : List Hdr)
+    (h : decodeAndVerify req resps = .ok hs) :
+    resps.length ≤ req.amount ∧ ∃ headers, decodeLoop resps [] = .ok headers ∧ hs = sortByHeight headers := by
+  unfold decodeAndVerify decodeAndVerifyG at h
+  split at h
+  · cases h
+  · split at h
+    · cases h
+    · rename_i hl
+      refine ⟨by omega, ?_⟩
+      split at h
+      · cases h
+      · rename_i headers hd
+        refine ⟨headers, hd, ?_⟩
+        dsimp only at h
+        split at h
+        · split at h
+          · split at h
+            · injection h with h; exact h.symm
+            · cases h
+          · split at h
+            · cases h
+            · simp only [↓reduceIte] at h
+              split at h
+              · injection h with h; exact h.symm
+              · cases h
+        · split at h
+          · split at h
+            · injection h with h; exact h.symm
+            · cases h
+          · cases h
+        · cases h
+
+
 end Lumina.Proofs.HeaderExClient
